@@ -26,6 +26,8 @@ func vfExpectPanic(f func()) bool
 func vfSet(name string, v int)
 func vfMerge(fnSuffix string)
 func vfReplace(fnSuffix string, fn any)
+func vfNative() bool
+func vfJitter()
 func vfTier() int
 func vfParam(name string, def int) int
 func vfKnown(id string) bool
